@@ -88,7 +88,7 @@ def rle_to_brle(rle, dtype=None):
         if value not in (0, 1):
             raise ValueError("Invalid run length encoding for conversion to BRLE")
         if value == curr_val:
-            out[-1] += count
+            out[-1] += int(count)
         else:
             out.append(int(count))
             curr_val = value
@@ -131,7 +131,7 @@ def merge_brle_lengths(lengths):
     accumulating = False
     for length in lengths[1:]:
         if accumulating:
-            out[-1] += length
+            out[-1] += int(length)
             accumulating = False
         else:
             if length == 0:
@@ -308,7 +308,7 @@ def merge_rle_lengths(values, lengths):
         if length == 0:
             continue
         if value == curr:
-            ret_lengths[-1] += length
+            ret_lengths[-1] += int(length)
         else:
             curr = value
             ret_lengths.append(int(length))
@@ -387,7 +387,7 @@ def sorted_rle_gather_1d(rle_data, ordered_indices):
         while start <= index:
             try:
                 value = next(data_iter)
-                start += next(data_iter)
+                start += int(next(data_iter))
             except StopIteration:
                 raise IndexError(
                     "Index %d out of range of raw_values length %d", index, start
@@ -531,7 +531,7 @@ def sorted_brle_gather_1d(brle_data, ordered_indices):
         while start <= index:
             try:
                 value = not value
-                start += next(data_iter)
+                start += int(next(data_iter))
             except StopIteration:
                 raise IndexError(
                     "Index %d out of range of raw_values length %d", index, start
@@ -663,7 +663,7 @@ def rle_strip(rle_data):
             final_i = i
             break
         else:
-            start += count
+            start += int(count)
 
     end = 0
     final_j = len(rle_data)
@@ -672,7 +672,7 @@ def rle_strip(rle_data):
             final_j = j
             break
         else:
-            end += count
+            end += int(count)
 
     rle_data = rle_data[final_i : None if final_j == 0 else -final_j].reshape((-1,))
     return rle_data, (start, end)
@@ -701,7 +701,7 @@ def brle_strip(brle_data):
             final_i = i
             break
         else:
-            start += count
+            start += int(count)
     end = 0
     final_j = len(brle_data)
     val = bool(len(brle_data) % 2)
@@ -711,7 +711,7 @@ def brle_strip(brle_data):
             final_j = j
             break
         else:
-            end += count
+            end += int(count)
 
     brle_data = brle_data[final_i : None if final_j == 0 else -final_j]
     brle_data = np.concatenate([[0], brle_data])
